@@ -42,6 +42,9 @@ PINS = [
     'mesonbuild.mformat:ComputeLineLengths',
     'mesonbuild.mformat:MultilineArgumentDetector',
     'mesonbuild.mformat:MultilineParenthesesDetector',
+    'mesonbuild.mformat:CommentDetector',
+    'mesonbuild.mformat:split_lines',
+    'mesonbuild.mformat:can_be_plain_string',
     'mesonbuild.mformat:Formatter.format',
     'mesonbuild.mformat:Formatter.load_configuration',
     'mesonbuild.mformat:FormatterConfig',
@@ -316,21 +319,42 @@ def first_diff(a: T.Any, b: T.Any, path: str = '') -> T.Tuple[str, T.Any, T.Any]
 
 # --------------------------------------------------------------------------------------------- configurations
 
-OPTION_VALUES: T.Dict[str, T.List[T.Any]] = {
+# values tried per option; every field of the LIVE `FormatterConfig` dataclass is enumerated (see
+# `live_option_values`): both values of every bool, several values of every int, every member of a Literal
+# (end_of_line); the lists below only add interesting values for the fields known when this was written.
+KNOWN_VALUES: T.Dict[str, T.List[T.Any]] = {
     'max_line_length': [80, 20, 40, 0, 200],
     'indent_by': ['    ', '  ', '\t', ' '],
-    'space_array': [False, True],
-    'kwargs_force_multiline': [False, True],
-    'wide_colon': [False, True],
-    'no_single_comma_function': [False, True],
-    'sort_files': [False, True],
-    'group_arg_value': [False, True],
-    'simplify_string_literals': [True, False],
-    'insert_final_newline': [True, False],
     'tab_width': [4, 8, 1],
-    'end_of_line': ['native', 'lf', 'crlf', 'cr'],
     'indent_before_comments': ['  ', ' ', '', '\t'],
 }
+
+
+def live_option_values() -> T.Dict[str, T.List[T.Any]]:
+    import dataclasses
+    from mesonbuild import mformat
+    out: T.Dict[str, T.List[T.Any]] = {}
+    for f in dataclasses.fields(mformat.FormatterConfig):
+        default = f.metadata['default']
+        getter = getattr(f.metadata['getter'], '__name__', '')
+        lits = re.findall(r"'([^']*)'", str(f.type)) if 'Literal' in str(f.type) else []
+        if getter == 'getboolean':
+            vals = [default, not default]
+        elif getter == 'getint':
+            vals = [default] + KNOWN_VALUES.get(f.name, [1, 40, 0, 200])
+        elif lits:
+            vals = [default] + lits
+        else:
+            vals = [default] + KNOWN_VALUES.get(f.name, [])
+        seen: T.List[T.Any] = []
+        for v in vals:
+            if v not in seen:
+                seen.append(v)
+        out[f.name] = seen
+    return out
+
+
+OPTION_VALUES: T.Dict[str, T.List[T.Any]] = live_option_values()
 OPTION_NAMES = list(OPTION_VALUES)
 DEFAULT_CFG = {k: v[0] for k, v in OPTION_VALUES.items()}
 
@@ -343,10 +367,10 @@ def cfg_text(cfg: T.Dict[str, T.Any]) -> str:
             lines.append(f'{k} = {"true" if v else "false"}')
         elif isinstance(v, int):
             lines.append(f'{k} = {v}')
-        elif k in ('indent_by', 'indent_before_comments'):
-            lines.append(f"{k} = '{v}'")
-        else:
+        elif k == 'end_of_line':
             lines.append(f'{k} = {v}')
+        else:
+            lines.append(f"{k} = '{v}'")
     return '\n'.join(lines) + '\n'
 
 
@@ -413,6 +437,56 @@ PLACEHOLDER_SHAPES = ['@' + i + '@' for i in PLACEHOLDER_IDS] + [
 ]
 
 
+# characters str.splitlines() breaks at although the lexer (and '\n'-splitting) does not: harvested from the
+# running Python; '\r' is left out (a file read by `meson format` never holds one: universal newlines)
+SPLITLINES_EXTRA = [chr(c) for c in range(0x3000) if chr(c) not in '\n\r' and len(('a' + chr(c) + 'b').splitlines()) > 1]
+COMMENT_BODIES += [f' a{c}b' for c in SPLITLINES_EXTRA] + [f' x{c}# y' for c in SPLITLINES_EXTRA[:3]]
+HOSTILE_WORDS = [f'p{c}q' for c in SPLITLINES_EXTRA]
+
+
+def shape_family() -> T.List[str]:
+    """small exhaustive family of call / method / array / dict shapes:
+    0,1,2 arguments x positional/keyword x trailing comma x one line/multi-line x comment"""
+    out: T.List[str] = []
+    POS, KW, DENT = ["'a'", 'b'], ["k: 1", "l: 'v'"], ["'k': 1", "m: 'v'"]
+    conts = {'call': ('f(', ')'), 'method': ('o.m(', ')'), 'nested': ('g(f(', '))'), 'assign-call': ('x = f(', ')'),
+             'array': ('x = [', ']'), 'dict': ('x = {', '}')}
+    for cont, (op, cl) in conts.items():
+        for n in (0, 1, 2):
+            if cont == 'array':
+                kindsets = [['pos'] * n]
+            elif cont == 'dict':
+                kindsets = [['ent'] * n]
+            else:
+                kindsets = [[]] if n == 0 else ([['pos'], ['kw']] if n == 1 else [['pos', 'pos'], ['pos', 'kw'], ['kw', 'kw']])
+            for kinds in kindsets:
+                items = [{'pos': POS, 'kw': KW, 'ent': DENT}[k][i] for i, k in enumerate(kinds)]
+                for trailing in ((False, True) if n else (False,)):
+                    for multi in (False, True):
+                        for comment in (False, True):
+                            if not multi:
+                                t = op + ', '.join(items) + (',' if trailing else '') + cl + ('  # c' if comment else '') + '\n'
+                            else:
+                                t = op + '\n'
+                                if not items and comment:
+                                    t += '  # c\n'
+                                for i, it in enumerate(items):
+                                    last = i == len(items) - 1
+                                    t += '  ' + it + (',' if (not last or trailing) else '') + (' # c' if comment and i == 0 else '') + '\n'
+                                t += cl + '\n'
+                            out.append(t)
+    return out
+
+
+def one_factor_configs() -> T.List[T.Dict[str, T.Any]]:
+    """the default configuration and every configuration that differs from it in exactly one field"""
+    out = [dict(DEFAULT_CFG)]
+    for k, vals in OPTION_VALUES.items():
+        for v in vals[1:]:
+            out.append(dict(DEFAULT_CFG, **{k: v}))
+    return out
+
+
 class Gen:
     """grammar-based program generator; emits tokens, `render` decorates with legal trivia"""
 
@@ -441,8 +515,10 @@ class Gen:
                 s += r.choice(ESCAPES)
             elif k < 0.8:
                 s += r.choice(NONASCII)
-            elif k < 0.9:
+            elif k < 0.86:
                 s += r.choice(['@', '#', ' ', '"', '@foo@', '@a@', '/', '\t'])
+            elif k < 0.9:
+                s += r.choice(HOSTILE_WORDS)
             else:
                 s += r.choice(['\\\\', "\\'"])
         return s
@@ -461,8 +537,10 @@ class Gen:
                 s += r.choice(['\\', '\\n', '\\\\', '\\x41', '\\x40a\\x40', "\\'", '\\t'])
             elif k < 0.75:
                 s += r.choice(["'", "''", "it's"]) + r.choice(['x', ' ', '.'])
-            elif k < 0.85:
+            elif k < 0.8:
                 s += r.choice(['@', '@foo@', '#', ' # not a comment', '"'])
+            elif k < 0.85:
+                s += r.choice(HOSTILE_WORDS)
             else:
                 s += r.choice(NONASCII + ' ')
         if s.endswith("'") or "'''" in s:
@@ -869,8 +947,9 @@ def features(text: str, tree) -> T.Tuple[T.Set[str], T.List[str]]:
     return feats, flat_comments
 
 
-def alt_formatter(cfg: T.Dict[str, T.Any], cfgdir: str, reset: T.Iterable[str]):
+def alt_formatter(cfg: T.Dict[str, T.Any], cfgdir: str, reset: T.Iterable[str], override: T.Optional[T.Dict[str, T.Any]] = None):
     c2 = dict(cfg)
+    c2.update(override or {})
     for opt in reset:
         c2[opt] = DEFAULT_CFG[opt] if opt != 'simplify_string_literals' else False
     slot = 9000 + os.getpid() % 500
@@ -1012,8 +1091,6 @@ def run_pair(text: str, cfgdir: str, cfgid: int, cfg: T.Dict[str, T.Any], want_s
         res['idem'] = out2 == out
         if out2 != out:
             for key in classify_idem(text, out, out2, cfg, cfgdir, feats):
-                if key == 'idempotence:simplify_string_literals' and 'ml-backslash' in feats:
-                    key = 'simplify:multiline-backslash'
                 res['viol'].append((key, f'format(format(x)) != format(x): {out!r} -> {out2!r}'[:400]))
     except Exception as e:
         res['idem'] = False
@@ -1078,6 +1155,7 @@ def region_features(out: str, out2: str, want_text: bool = False) -> T.Any:
     return feats
 
 
+TRIVIA_BEFORE_COMMA = re.compile(r'(#[^\n]*|\\[ \t]*)\n[ \t\n]*,')
 CAUSE_OPTIONS = ['no_single_comma_function', 'sort_files', 'simplify_string_literals']
 
 
@@ -1116,13 +1194,32 @@ def classify_idem(text: str, out: str, out2: str, cfg: T.Dict[str, T.Any], cfgdi
             return f2.format(o1, P) == o1
         except Exception:
             return False
+    # 1. structural: the differing statements contain parentheses broken over several lines (listed defect:
+    #    closing brackets inside them are indented from stale whitespace).  Tested first because option
+    #    counterfactuals change line lengths and can make such a case stable by accident.
+    if 'multiline-paren' in region_features(out, out2):
+        return ['idempotence:multiline-paren']
+    # 2. counterfactual: the option(s) whose reset makes the formatter idempotent on the differing statements
     active = [o for o in CAUSE_OPTIONS if cfg[o] != (DEFAULT_CFG[o] if o != 'simplify_string_literals' else False)]
     for k in range(1, len(active) + 1):
         for opts in itertools.combinations(active, k):
             if idem_without(list(opts)):
-                return ['idempotence:' + o for o in opts]
-    if 'multiline-paren' in region_features(out, out2):
-        return ['idempotence:multiline-paren']
+                keys = ['idempotence:' + o for o in opts]
+                if 'idempotence:no_single_comma_function' in keys:
+                    sub = ''
+                    if TRIVIA_BEFORE_COMMA.search(base):
+                        # the removed comma of a single argument is preceded by a comment or a line continuation
+                        sub = ':trivia-before-removed-comma'
+                    else:
+                        try:   # stable when no line is ever too long => the multi-line layout came from line splitting
+                            f3 = alt_formatter(cfg, cfgdir, [], {'max_line_length': 100000})
+                            o1 = f3.format(base, P)
+                            if f3.format(o1, P) == o1:
+                                sub = ':line-length-split'
+                        except Exception:
+                            pass
+                    keys = [k_ + sub if k_.endswith('no_single_comma_function') else k_ for k_ in keys]
+                return keys
     if re.search(r'\\[ \t]*(#.*)?\n([ \t]*(#.*)?\n)*[ \t]*(#.*)?$', out):
         return ['idempotence:trailing-continuation']
     if re.search(r'[\[({][ \t]*\\[ \t]*(#.*)?\n', out):
@@ -1139,47 +1236,58 @@ def classify_idem(text: str, out: str, out2: str, cfg: T.Dict[str, T.Any], cfgdi
     return ['idempotence:other:' + what]
 
 
-def check_cli(text: str, cfgdir: str, cfgid: int, expect_out: str, eol: str) -> T.List[T.Tuple[str, str]]:
-    """--check-only / --check-diff exit status against 'output differs'; --output writes the formatted text"""
+FILE_NEWLINES = ['\n', '\r\n', '\r']
+
+
+def check_cli(text: str, cfgdir: str, cfgid: int, expect_out: str, eol: str,
+              file_nl: str = '\n') -> T.List[T.Tuple[str, str]]:
+    """`--check-only` / `--check-diff` exit status against "formatting would change the file", where the
+    ground truth is taken from the tool itself: a copy of the file is formatted with `--inplace` and its bytes
+    are compared with the original's.  The file is stored with line ending `file_nl`.
+    Also: check modes do not touch the file; `--output` writes the Formatter.format result with the configured
+    end_of_line."""
     mformat, _, _ = impl()
-    viol = []
+    viol: T.List[T.Tuple[str, str]] = []
+    if '\r' in text:
+        return viol
     d = os.path.join(cfgdir, f'w{os.getpid()}')   # one scratch directory per worker (removed with cfgdir)
     os.makedirs(d, exist_ok=True)
+    src = os.path.join(d, 'meson.build')
+    cpy = os.path.join(d, 'copy.build')
+    stored = text.replace('\n', file_nl).encode('utf-8')
+    for path in (src, cpy):
+        with open(path, 'wb') as f:
+            f.write(stored)
+    cfgp = os.path.join(cfgdir, f'cfg{cfgid}.ini')
+    p = argparse.ArgumentParser()
+    mformat.add_arguments(p)
+    tag = f'file newline {file_nl!r}, end_of_line={eol}'
     try:
-        src = os.path.join(d, 'meson.build')
-        with open(src, 'w', encoding='utf-8', newline='') as f:
-            f.write(text)
-        # the file is read back through universal newlines, as `meson format` does
-        code = Path(src).read_text(encoding='utf-8')
-        cfgp = os.path.join(cfgdir, f'cfg{cfgid}.ini')
-        p = argparse.ArgumentParser()
-        mformat.add_arguments(p)
-        differs = None
+        with contextlib.redirect_stdout(io.StringIO()):
+            mformat.run(p.parse_args(['-i', '-c', cfgp, cpy]))
+    except Exception as e:
+        return [('cli:inplace:raises', f'--inplace raised {type(e).__name__} ({tag})')]
+    would_change = open(cpy, 'rb').read() != stored
+    for flag in ('-q', '-d'):
+        buf = io.StringIO()
         try:
-            fm = formatter_for(cfgdir, cfgid)
-            differs = fm.format(code, Path(src)) != code
-        except Exception:
-            return viol
-        for flag in ('-q', '-d'):
-            buf = io.StringIO()
             with contextlib.redirect_stdout(buf):
                 rc = mformat.run(p.parse_args([flag, '-c', cfgp, src]))
-            if (rc != 0) != differs:
-                viol.append((f'cli:check{flag}:status', f'{flag} returned {rc} but formatting would {"" if differs else "not "}change the file'))
-            if Path(src).read_text(encoding='utf-8') != code:
-                viol.append((f'cli:check{flag}:modifies-file', 'check mode modified the file'))
-        outp = os.path.join(d, 'out.build')
-        with contextlib.redirect_stdout(io.StringIO()):
-            mformat.run(p.parse_args(['-c', cfgp, '-o', outp, src]))
-        raw = open(outp, 'rb').read().decode('utf-8')
-        if code == text and Path(outp).read_text(encoding='utf-8') != expect_out.replace('\r\n', '\n').replace('\r', '\n'):
-            viol.append(('cli:output:content', '--output content differs from Formatter.format result'))
-        nl = {'lf': '\n', 'crlf': '\r\n', 'cr': '\r'}.get(eol)
-        if nl and code == text and '\r' not in expect_out:
-            if raw != expect_out.replace('\n', nl):
-                viol.append(('cli:output:end_of_line', f'end_of_line={eol} not applied to --output'))
-    finally:
-        pass
+        except Exception as e:
+            viol.append((f'cli:check{flag}:raises', f'{flag} raised {type(e).__name__} ({tag})'))
+            continue
+        if (rc != 0) != would_change:
+            viol.append((f'cli:check{flag}:status', f'{flag} returned {rc} but --inplace would {"" if would_change else "not "}change the file ({tag})'))
+        if open(src, 'rb').read() != stored:
+            viol.append((f'cli:check{flag}:modifies-file', 'check mode modified the file'))
+    nl = {'lf': '\n', 'crlf': '\r\n', 'cr': '\r'}.get(eol, os.linesep)
+    if open(cpy, 'rb').read().decode('utf-8') != expect_out.replace('\n', nl):
+        viol.append(('cli:inplace:content', f'--inplace did not write Formatter.format(text) with the configured line ending ({tag})'))
+    outp = os.path.join(d, 'out.build')
+    with contextlib.redirect_stdout(io.StringIO()):
+        mformat.run(p.parse_args(['-c', cfgp, '-o', outp, src]))
+    if open(outp, 'rb').read().decode('utf-8') != expect_out.replace('\n', nl):
+        viol.append(('cli:output:content', f'--output did not write Formatter.format(text) with the configured line ending ({tag})'))
     return viol
 
 
@@ -1413,7 +1521,12 @@ TARGETED: T.List[T.Tuple[str, T.Dict[str, T.Any]]] = [
     ("files([['a']])\n", {}),                                       # was idempotence:files-array (fixed 7ce7cd4)
     ("files(['a'] # about a\n)\n", {}),                             # comments:lost-on-files-flatten
     ("files('b' # c1\n, 'a' # c2\n)\n", {'sort_files': True}),      # comments:reordered-by-sort-files
-    ("f('a',)\n", {'no_single_comma_function': True}),              # idempotence:no_single_comma_function
+    ("f('a',)\n", {'no_single_comma_function': True}),              # was idempotence:no_single_comma_function (fixed a1ee46c)
+    ("f(\n  'a',\n)\n", {'no_single_comma_function': True}), ("f('''a''')\n", {'no_single_comma_function': True}),
+    ("f(g(a,))\no.m(x.n(1,),)\nf([a,],)\n", {'no_single_comma_function': True}),
+    ("p('' # c\n,)\n", {'no_single_comma_function': True}),        # idempotence:no_single_comma_function:trivia-before-removed-comma
+    ("b + se[is_variable('fo/b10.c', 'x@y', '9')[d(s)]]\n", {'no_single_comma_function': True, 'max_line_length': 40}),   # ...:line-length-split
+    ("x = 1 # a\x0cb\n# c\x0bd\ny = [ # e\x1c# f\n 'p\x0cq', # g\x85h\n]\n", {}),   # was comments:changed (fixed 4b43278)
     ("cs = 'Z.c' - ((0b101))\n", {'max_line_length': 20}),          # idempotence:multiline-paren
     ("x = files('b', 'a10', 'a9', 'd/a', y, 'A1', 'a/b/c', 'a/b')\n", {'sort_files': True}),
     ("x = (a not # c\n in b)\n", {}),
@@ -1458,11 +1571,17 @@ def _job(a: T.Tuple[str, T.List[T.Dict[str, T.Any]], str, T.Any]) -> T.List[T.Di
     for origin, text, ci in items:
         r = run_pair(text, cfgdir, ci, cfgs[ci])
         r['origin'] = origin
-        if r['status'] == 'ok' and (origin != 'gen' or zlib.crc32(text.encode('utf-8', 'surrogatepass')) % 8 == 0):
-            r['viol'] += check_cli(text, cfgdir, ci, r['out'], cfgs[ci]['end_of_line'])
+        crc = zlib.crc32(text.encode('utf-8', 'surrogatepass'))
+        if r['status'] == 'ok' and '\r' not in r['out'] and (origin not in ('gen', 'shape') or crc % 8 == 0):
+            eol = cfgs[ci]['end_of_line']
+            r['viol'] += check_cli(text, cfgdir, ci, r['out'], eol, FILE_NEWLINES[(crc // 8 + ci) % 3])
             r['cli'] = True
             if r.get('idem'):
-                r['viol'] += [(k, w + ' (on formatted text)') for k, w in check_cli(r['out'], cfgdir, ci, r['out'], cfgs[ci]['end_of_line'])]
+                # a freshly formatted file, stored with the configured line ending, is "formatted"; stored with
+                # another line ending it is not
+                nl = {'lf': '\n', 'crlf': '\r\n', 'cr': '\r'}.get(eol, os.linesep)
+                for fnl in (nl, FILE_NEWLINES[(crc // 8 + ci + 1) % 3]):
+                    r['viol'] += [(k, w + ' (on formatted text)') for k, w in check_cli(r['out'], cfgdir, ci, r['out'], eol, fnl)]
         out.append(r)
     return out
 
@@ -1597,6 +1716,16 @@ def build_cases(ctx: Ctx, cfgs: T.List[T.Dict[str, T.Any]], cfgdir: str) -> T.Li
     # targeted (configurations appended to cfgs by the caller: indexes recorded in TARGET_IDX)
     items = [('targeted', text, TARGET_IDX[i]) for i, (text, _o) in enumerate(TARGETED)]
     jobs.append((cfgdir, cfgs, 'texts', items))
+    # exhaustive shape family x (every one-field variation of the live FormatterConfig + pairwise configurations)
+    shapes = shape_family()
+    ctx.extra['shape_family'] = len(shapes)
+    items = []
+    for sh in shapes:
+        base = list(range(ncfg_base(cfgs))) if ctx.deep else rng.sample(range(ncfg_base(cfgs)), 6)
+        for ci in dict.fromkeys(OF_IDX + base):
+            items.append(('shape', sh, ci))
+    for i in range(0, len(items), 400):
+        jobs.append((cfgdir, cfgs, 'texts', items[i:i + 400]))
     # corpus
     corpus = corpus_texts()
     fmt_corpus = [c for c in corpus if 'test cases/format' in c[0] or c[0].startswith('corpus/')]
@@ -1628,6 +1757,7 @@ def build_cases(ctx: Ctx, cfgs: T.List[T.Dict[str, T.Any]], cfgdir: str) -> T.Li
 
 
 TARGET_IDX: T.List[int] = []
+OF_IDX: T.List[int] = []
 _NBASE = 0
 
 
@@ -1670,8 +1800,16 @@ def run(ctx: Ctx) -> None:
             else:
                 cfgs.append(c)
                 TARGET_IDX.append(len(cfgs) - 1)
+        OF_IDX.clear()
+        for c in one_factor_configs():
+            if c in cfgs:
+                OF_IDX.append(cfgs.index(c))
+            else:
+                cfgs.append(c)
+                OF_IDX.append(len(cfgs) - 1)
         write_cfgs(cfgdir, cfgs)
         ctx.extra['configurations'] = len(cfgs)
+        ctx.extra['options_enumerated_from_live_FormatterConfig'] = {k: [repr(v) for v in vs] for k, vs in OPTION_VALUES.items()}
         jobs = build_cases(ctx, cfgs, cfgdir)
         with mp.Pool(min(16, os.cpu_count() or 4)) as pool:
             results = [r for rs in pool.imap(_job, jobs, chunksize=1) for r in rs]
@@ -1833,7 +1971,8 @@ def replay(ctx: Ctx, rep: dict) -> None:
             print('output:', repr(r.get('out')))
             viol = list(r['viol'])
             if r['status'] == 'ok':
-                viol += check_cli(case['text'], cfgdir, 0, r['out'], cfg['end_of_line'])
+                for fnl in FILE_NEWLINES:
+                    viol += check_cli(case['text'], cfgdir, 0, r['out'], cfg['end_of_line'], fnl)
             if case.get('repo') and case['repo'] != common.REPO:
                 print(f'note: recorded against {case["repo"]}, replaying against {common.REPO}')
             for key, what in viol:
